@@ -67,6 +67,7 @@ func bannerFree(c Case) Case {
 	for k, v := range n.Behav {
 		n.Behav[k] = Behav{Out: v.Out}
 	}
+	n.Splits, n.DelayMs, n.Late = nil, 0, false
 	return n
 }
 
@@ -212,4 +213,60 @@ func genFaults(thorough bool) []Case {
 		)
 	}
 	return l
+}
+
+// ---------------------------------------------------------------- timings other than the fast device
+
+func rawReplyLen(line string, b Behav) int {
+	return len(strings.ReplaceAll(replyFor(line, b), "\n", "\r\n"))
+}
+
+// genSplits: the answer to one command line arrives in two (or three) pieces, cut at every byte.
+// Only cuts after which the real code's behaviour is independent of the timing are used here
+// (theorems first_read_any_chunking / hash_read_any_chunking): every cut for the forms without a
+// probe, every cut for A and D, and for C every cut that does not isolate the second prompt.
+func genSplits(ops string, every int, noAsk bool, forms []Behav, delay int) []Case {
+	dev, tgt := buildBase(ops)
+	lines := physLines(dev, tgt)
+	var cases []Case
+	for li, l := range lines {
+		joinedFirst := strings.HasPrefix(l, "no ") && li < len(lines) // first half of a replace (probing forms excluded there)
+		for _, f := range forms {
+			b := f
+			if probing(l, b) != "" && joinedFirst {
+				continue
+			}
+			n := rawReplyLen(l, b)
+			for k := 1; k < n; k++ {
+				if every > 1 && k%every != 0 && k != n-1 {
+					continue
+				}
+				if b.Form == "C" && k > n-len("\r\nrouter#")-len("\r\n")-1 {
+					// would isolate (part of) the second prompt: see genLate
+					continue
+				}
+				c := Case{Device: dev, Target: tgt, Behav: map[string]Behav{l: b}, NoAsk: noAsk,
+					Splits: map[string][]int{l: {k}}, DelayMs: delay}
+				cases = append(cases, c)
+			}
+		}
+	}
+	return cases
+}
+
+// genLate: form C, the second prompt arrives late (F-C15d)
+func genLate(delay int) []Case {
+	var cases []Case
+	for _, ops := range []string{"aa", "a"} {
+		dev, tgt := buildBase(ops)
+		lines := physLines(dev, tgt)
+		for _, pad := range []int{0, 2} {
+			b := Behav{Form: "C", Pad: pad, Msg: msg2}
+			n := rawReplyLen(lines[0], b)
+			c := Case{Device: dev, Target: tgt, Behav: map[string]Behav{lines[0]: b},
+				Splits: map[string][]int{lines[0]: {n - len("\r\nrouter#")}}, DelayMs: delay, Late: true}
+			cases = append(cases, c)
+		}
+	}
+	return cases
 }
